@@ -9,6 +9,9 @@ from drivers import screen_drv as SD
 ESC = '\x1b'
 
 
+FINALS = 'ABCDEFGHIJKLMNOPQRSTUVWXYZabcdefghijklmnopqrstuvwxyz@`~{|}'
+
+
 def params(rng, rows, cols):
     return rng.choice([0, 1, 2, max(1, rows // 2), rows, cols, rows + 1, cols + 3, 99999999999, 7])
 
@@ -25,6 +28,9 @@ def known_sequences(rng, rows, cols):
         # any number of parameters before any final character (a final that takes fewer must not leave the others behind)
         ESC + '[' + ';'.join(P() for _ in range(rng.randrange(1, 6))) + rng.choice('HfrmqABCDJKl'),
         ESC + '[' + ';'.join(P() for _ in range(3)) + rng.choice('Hfr'),
+        # any final character at all, with none, one or two parameters (most are not sequences this emulator knows: those are dropped whole)
+        ESC + '[' + rng.choice(FINALS), ESC + '[' + P() + rng.choice(FINALS), ESC + '[' + P() + ';' + P() + rng.choice(FINALS),
+        ESC + '[' + P() + rng.choice(FINALS),
         ESC + '(B', ESC + ')0', ESC + '[0J', ESC + '[1J', ESC + '[2J', ESC + '[0K', ESC + '[1K', ESC + '[2K', ESC + '[0;0r', ESC + '[1;1H',
     ]
 
